@@ -17,11 +17,11 @@ _NEG = re.compile(
 _OBJ = re.compile(r'(a sub module of )?"([^"]+)"')
 
 
-def parse_module_message(msg: str):
+def parse_module_message(msg: str, allow_duplicates: bool = False):
     """-> (pos, neg): pos = {(importer, importee)}, neg = {((kind,name), frozenset({(kind,name)}), any_flag)}."""
     pos, neg = set(), set()
     lines = msg.split("\n")
-    if len(set(lines)) != len(lines):
+    if len(set(lines)) != len(lines) and not allow_duplicates:
         raise Unparseable(f"duplicate line in {msg!r}")
     for line in lines:
         m = _POS.fullmatch(line)
